@@ -88,6 +88,18 @@ def gen_weaver(rng):
     if "grid" in op and rng.random() < 0.25:
         op["bad_ends"] = True
     c["ops"] = [op]
+    if rng.random() < 0.2:
+        # a bursty non-negative series (idle most of the time); the application runs with warnings as errors, catches
+        # whatever surfaces and resamples linearly instead
+        n = len(c["x"])
+        c["y"] = [str(rng.choice([0, 0, 0, 0, rng.randint(3, 9)])) for _ in range(n)]
+        if len(set(c["y"])) == 1:
+            c["y"][n // 2] = "7"
+        c["int_y"] = False
+        c["werror"] = True
+        op["method"] = rng.choice(["cubic", "spline"])
+        op.pop("bad_ends", None)
+        c["ops"] = [op, {"op": "interp", "method": "linear", "n": rng.randint(4, 20)}]
     return c
 
 
